@@ -382,6 +382,26 @@ func (ex *Exec) lookup(st *State, fr *Frame, x *ssa.Lookup) {
 		conds = append(conds, c)
 		vals = append(vals, e.v)
 	}
+	// identity maps (every value equals its key, e.g. the screen's palette cache):
+	// the looked-up value is the key itself whenever it is present
+	if kt, isT := k.(*Term); isT && len(conds) > 0 {
+		ident := true
+		for _, kk := range mo.keys {
+			e := mo.m[kk]
+			ek, ok1 := e.k.(*Term)
+			ev, ok2 := e.v.(*Term)
+			if !ok1 || !ok2 || !ek.IsConst() || !ev.IsConst() || ek.sort != ev.sort || ek.val != ev.val {
+				ident = false
+				break
+			}
+		}
+		if zt, isZ := zero.(*Term); ident && isZ && zt.sort == kt.sort {
+			okT := mkOr(conds...)
+			ex.set(fr, x, mk(mkIte(okT, kt, zt), okT))
+			fr.ip++
+			return
+		}
+	}
 	acc := zero
 	okT := tFalse
 	merged := true
